@@ -56,7 +56,29 @@ pub fn pick_difficulty(rng: &mut Rng, mode: DiffMode, case: &Case, parent: usize
     match mode {
         DiffMode::Equal => 1,
         DiffMode::Small => rng.range(1, 3) as u128,
-        DiffMode::Ties => *rng.pick(&[1u128, 1, 2, 2, 4]),
+        DiffMode::Ties => {
+            // aim at exact ties of accumulated difficulty between the branches below the anchor
+            // (with different numbers of blocks): give the new block the difficulty that makes its
+            // branch catch up exactly with the heaviest rival branch, when that is between 1 and 8
+            let root = case.alive[0];
+            let acc = |mut n: usize| -> (u128, Option<usize>) {
+                // (accumulated difficulty from the anchor's child down to n, that child)
+                let mut sum = 0u128;
+                let mut top = None;
+                while n != root {
+                    sum += case.world.nodes[n].diff;
+                    top = Some(n);
+                    match case.world.nodes[n].parent { Some(p) => n = p, None => break }
+                }
+                (sum, top)
+            };
+            let (own, own_top) = acc(parent);
+            let rival = case.alive.iter().map(|&n| acc(n)).filter(|(_, t)| t.is_some() && *t != own_top).map(|(s, _)| s).max();
+            match rival {
+                Some(r) if r > own && r - own <= 8 && rng.chance(2, 3) => r - own,
+                _ => *rng.pick(&[1u128, 1, 2, 2, 4]),
+            }
+        }
         DiffMode::HeavyLight => {
             // children of the same parent alternate between heavy and light branches
             let siblings = case.world.nodes.iter().filter(|n| n.parent == Some(parent)).count();
@@ -183,6 +205,9 @@ pub fn queries(out: &mut Out, rng: &mut Rng, case: &Case, heavy: bool) {
         );
     }
     out.emit("c q fees", &c::get_fees(net));
+    // C15: the 10 000 cut-off exercised with small numbers of transactions
+    let n = *rng.pick(&[1u32, 2, 3, 5, 8, 10_000]);
+    out.emit(&format!("c q feesn {}", n), &c::get_fee_rates(n));
     if heavy || rng.chance(1, 3) {
         out.emit("c snap", &c::snapshot(net));
         out.emit("c digest", &c::digest(net));
@@ -337,6 +362,11 @@ pub fn run_case(out: &mut Out, rng: &mut Rng, thorough: bool, case_no: u64) {
             }
             fp.push_str(&format!("i{}", budget));
             sync_alive(&mut case);
+        } else if r < 84 || (paused && r < 90) {
+            // upgrade at a message boundary (more often while an ingestion is paused)
+            crate::sync::upgrade_op(out, network, &case.world.addresses(), None);
+            out.count(if paused { "upgrade:while-paused" } else { "upgrade" });
+            fp.push_str("u");
         } else {
             queries(out, rng, &case, false);
         }
@@ -409,6 +439,175 @@ pub fn run_many_outputs_case(out: &mut Out, rng: &mut Rng) {
     out.count("many-outputs-scenario");
 }
 
+/// Directed family (C08/C09/C01): a block with several transactions (same-block spends, zero-valued
+/// outputs) is ingested one step at a time; at EVERY pause position the answers are compared with
+/// the ones before the ingestion began, and the canister is upgraded at some of the positions.
+pub fn run_slices_case(out: &mut Out, rng: &mut Rng) {
+    let network = *rng.pick(&[Network::Regtest, Network::Testnet]);
+    let thr = 1u32;
+    let world = World::new(network, rng);
+    let mut case = Case { pre_ingest: None, walk: None, world, alive: vec![0], network, thr, mode: DiffMode::Equal };
+    c::fresh_init(network, thr as u128, None);
+    out.begin_case(&format!("ledger slices net={}", c::net_name(network)));
+    out.emit(&format!("c init {} {} {} {}", c::net_name(network), thr, c::block_text(&case.world.nodes[0].block, network), c::block_hex(&case.world.nodes[0].block)), "-");
+    let mut tip = 0usize;
+    let n_blocks = rng.range(4, 6);
+    for i in 0..n_blocks {
+        let opts = BlockOpts { max_txs: if i == 0 { 2 } else { 5 }, max_outputs: 4, many_outputs: None, difficulty: 1, mine: false, time: None, bits: None };
+        let idx = case.world.new_block(rng, tip, &opts);
+        let block = case.world.nodes[idx].block.clone();
+        let text = format!("{} {}", c::block_text(&block, network), c::block_hex(&block));
+        out.emit(&format!("c push {}", text), &c::push_direct(block));
+        tip = idx;
+    }
+    sync_alive(&mut case);
+    let addrs = case.world.addresses();
+    let mut rounds = 0;
+    let mut paused = false;
+    loop {
+        rounds += 1;
+        if rounds > 120 { break; }
+        let before_height = c::stable_height();
+        if !paused {
+            case.pre_ingest = Some(observation_vector(network, &addrs));
+        }
+        let budget = *rng.pick(&[1u64, 1, 1, 2, 0]);
+        let served: Vec<String> = c::main_chain_hashes();
+        let obs = c::ingest(budget);
+        out.emit(&format!("c ingest {}", budget), &obs);
+        if obs == "trap" { out.count("case-cut-after-trap"); return; }
+        let (after_height, root, pending) = can::with_state(|s| {
+            (s.stable_height(), hex::encode(can::state::get_block_hashes(s)[0].as_bytes()), s.unstable_blocks.verif_stable_child().is_some())
+        });
+        let k = (after_height - before_height) as usize;
+        out.emit("c advance", &format!("popped={} onchain={} pending={}", k, served.get(k).map(|h| *h == root).unwrap_or(false) as u8, (pending && obs != "paused") as u8));
+        paused = obs == "paused";
+        if paused && c::stable_height() != before_height { case.pre_ingest = None; }
+        if paused {
+            if let Some((pre, pre_len)) = &case.pre_ingest {
+                let (cur, cur_len) = observation_vector(network, &addrs);
+                let same = match pre.iter().zip(cur.iter()).find(|(a, b)| a.1 != b.1) {
+                    None => "same=1:-".to_string(),
+                    Some((a, _)) => format!("same=0:{}", a.0),
+                };
+                out.emit(&format!("c pausedsame {}", addrs.join(",")), &format!("{} len={}", same, (*pre_len == cur_len) as u8));
+                out.count("pausedsame");
+            }
+            if rng.chance(1, 2) {
+                crate::sync::upgrade_op(out, network, &addrs, None);
+                out.count("upgrade:while-paused");
+            }
+            if rng.chance(1, 3) { queries(out, rng, &case, false); }
+        } else {
+            case.pre_ingest = None;
+            sync_alive(&mut case);
+            if !pending { break; }
+        }
+    }
+    queries(out, rng, &case, true);
+    out.count("slices-scenario");
+}
+
+/// Directed family (C03/C02, "chain lengths reaching the testnet depth bound"): an anchor of high
+/// difficulty with two or three children; each child carries a short heavy branch and/or a long
+/// light side chain, with accumulated difficulties that tie exactly about half of the time. Long
+/// enough for the adaptive depth rule of testnet/regtest to decide.
+pub fn run_depth_bound_case(out: &mut Out, rng: &mut Rng, thorough: bool) {
+    let network = *rng.pick(&[Network::Regtest, Network::Testnet, Network::Regtest, Network::Mainnet]);
+    let thr = *rng.pick(&[2u32, 6, 144, 144]);
+    let world = World::new(network, rng);
+    let mut case = Case { pre_ingest: None, walk: None, world, alive: vec![0], network, thr, mode: DiffMode::Ties };
+    c::fresh_init(network, thr as u128, None);
+    out.begin_case(&format!("ledger depth-bound net={} thr={}", c::net_name(network), thr));
+    out.emit(&format!("c init {} {} {} {}", c::net_name(network), thr, c::block_text(&case.world.nodes[0].block, network), c::block_hex(&case.world.nodes[0].block)), "-");
+    let push = |out: &mut Out, case: &mut Case, rng: &mut Rng, parent: usize, difficulty: u128| -> usize {
+        let opts = BlockOpts { max_txs: 0, max_outputs: 1, many_outputs: None, difficulty, mine: false, time: None, bits: None };
+        let idx = case.world.new_block(rng, parent, &opts);
+        let block = case.world.nodes[idx].block.clone();
+        let text = format!("{} {}", c::block_text(&block, network), c::block_hex(&block));
+        out.emit(&format!("c push {}", text), &c::push_direct(block));
+        idx
+    };
+    let ingest = |out: &mut Out| {
+        let before = c::stable_height();
+        let served = c::main_chain_hashes();
+        let obs = c::ingest(c::UNLIMITED);
+        out.emit(&format!("c ingest {}", c::UNLIMITED), &obs);
+        if obs == "trap" { return false; }
+        let (h, root, pending) = can::with_state(|s| (s.stable_height(), hex::encode(can::state::get_block_hashes(s)[0].as_bytes()), s.unstable_blocks.verif_stable_child().is_some()));
+        let k = (h - before) as usize;
+        out.emit("c advance", &format!("popped={} onchain={} pending={}", k, served.get(k).map(|x| *x == root).unwrap_or(false) as u8, pending as u8));
+        true
+    };
+    // the genesis block has difficulty as mocked by World (1): put a heavy anchor candidate on top
+    let heavy: u128 = *rng.pick(&[1u128, 50, 1000]);
+    let a0 = push(out, &mut case, rng, 0, heavy);
+    // the bound is 500 - (blocks/1500)*(500 - min(thr, 499)): a chain of about 380-410 blocks reaches it
+    let long = if thorough { rng.range(385, 700) } else { rng.range(385, 470) } as usize;
+    let n_children = rng.range(2, 3);
+    // total accumulated difficulty every child aims at (ties), and its shape
+    let target: u128 = *rng.pick(&[2u128, 3, 1000, 1001]);
+    let mut plans: Vec<(bool, bool)> = vec![]; // (has short heavy branch, has long light side chain)
+    for i in 0..n_children {
+        plans.push(match (i, rng.below(3)) { (0, _) => (true, true), (_, 0) => (true, false), (_, 1) => (false, true), _ => (true, true) });
+    }
+    let mut firsts = vec![];
+    for _ in 0..n_children {
+        firsts.push(push(out, &mut case, rng, a0, 1));
+    }
+    for (i, (heavy_branch, long_chain)) in plans.iter().enumerate() {
+        let first = firsts[i];
+        if *heavy_branch {
+            // 1..3 blocks summing to target-1 (exact tie) or off by one
+            let total = if rng.chance(1, 2) { target.saturating_sub(1) } else { target.saturating_sub(1) + rng.range(0, 2) as u128 }.max(1);
+            let parts = rng.range(1, 3) as u128;
+            let mut p = first;
+            let mut left = total;
+            for j in 0..parts {
+                let d = if j + 1 == parts { left } else { (left / 2).max(1) };
+                if d == 0 { break; }
+                left -= d.min(left);
+                p = push(out, &mut case, rng, p, d);
+            }
+        }
+        if *long_chain {
+            let len = if i == 0 { long } else if rng.chance(2, 3) { rng.range(1, 30) as usize } else { rng.range(1, (long as u64) / 2) as usize };
+            let mut p = first;
+            // light blocks; difficulty 0 is not allowed by the mock (use 1) unless the target is huge
+            for _ in 0..len {
+                p = push(out, &mut case, rng, p, if target >= 1000 { 1 } else { 0u128.max(1) });
+            }
+        }
+        if !ingest(out) { out.count("case-cut-after-trap"); return; }
+        sync_alive(&mut case);
+        if case.alive.is_empty() { return; }
+    }
+    // a few more rounds: extend random tips, ingest, compare what every endpoint serves
+    for _ in 0..4 {
+        let parent = pick_parent(rng, &case);
+        let dd = *rng.pick(&[1u128, 1, 2, 1000]);
+        push(out, &mut case, rng, parent, dd);
+        if !ingest(out) { out.count("case-cut-after-trap"); return; }
+        sync_alive(&mut case);
+    }
+    // the tips of all endpoints against the oracle, for one address
+    let addrs = case.world.addresses();
+    let text = addrs[0].clone();
+    let (obs, parsed) = c::get_utxos_all_parsed(&text, network, &c::Filter::None, None);
+    out.emit(&format!("c q utxosall a:{} none 1000", text), &obs);
+    if let Some(p) = &parsed {
+        let info = c::get_info();
+        let f: Vec<&str> = info.split(' ').collect();
+        let bal = c::get_balance(&text, network, None);
+        let hdr = c::get_headers(network, f[0].parse().unwrap(), None);
+        let hdr_tip = hdr.split(' ').nth(1).unwrap_or("?").to_string();
+        let last_hdr = hdr.rsplit(|ch| ch == '[' || ch == ',').next().unwrap_or("").trim_end_matches(']').to_string();
+        out.emit(&format!("c bestat {}", text), &format!("info={}/{}/{}/{} utxos={}/{} headers={}/{} balance={}", f[0], f[1], f[2], f[3], p.tip_height, p.tip_hash, hdr_tip, last_hdr, bal.trim_start_matches("ok ")));
+    }
+    out.emit("c snap", &c::snapshot(network));
+    out.count("depth-bound-scenario");
+}
+
 pub fn run(out: &mut Out, ctx: &crate::Ctx) {
     for k in 0..ctx.cases {
         if let Some(only) = ctx.only_case {
@@ -419,6 +618,14 @@ pub fn run(out: &mut Out, ctx: &crate::Ctx) {
         let mut rng = Rng::new(ctx.seed.wrapping_mul(1_000_003).wrapping_add(k));
         if k == 3 && ctx.shard % 4 == 0 {
             run_many_outputs_case(out, &mut rng);
+            continue;
+        }
+        if k == 2 && ctx.shard % 2 == 1 || (ctx.thorough && k % 16 == 9) {
+            run_slices_case(out, &mut rng);
+            continue;
+        }
+        if k == 4 && ctx.shard % 4 == 2 || (ctx.thorough && k % 32 == 17) {
+            run_depth_bound_case(out, &mut rng, ctx.thorough);
             continue;
         }
         run_case(out, &mut rng, ctx.thorough, k);
